@@ -54,3 +54,59 @@ Example C06_example :
   fst (unsigned_spec I32 [50;49;52;55;52;56;51;54;52;56;32]) = None /\
   fst (unsigned_spec I64 [50;49;52;55;52;56;51;54;52;56;32]) = Some 2147483648%Z.
 Proof. vm_compute. split; reflexivity. Qed.
+
+(* ------------------------------------------------------------------ *)
+(* Token level, every admissible run from every state satisfying the parsers' invariant K (Hoare.v, CnfSafe.v):
+   a number token returns Ok z only if z is exactly the value of the decimal numeral at the cursor and fits the
+   type; the count tokens and the literal loops return Ok only within the limit in force. *)
+From Flussab Require Import Parsed Cnf CnfProofs Hoare CnfSafe.
+
+Theorem C06_number_token_exact : forall fuel sg t lr v r,
+  (sg = true -> ity_signed t = true) -> K fuel lr v -> aruns (number fuel sg t lr) v r ->
+  exists a lr' v', r = ADone (a, lr') v' /\
+    match a with
+    | Res (Ok z) => (ity_min t <= z <= ity_max t)%Z /\ z = num_value sg (rest_at v 0)
+    | _ => True
+    end.
+Proof. exact number_value. Qed.
+Print Assumptions C06_number_token_exact.
+
+Theorem C06_var_count_within_type_limit : forall fuel maxd lr v r,
+  K fuel lr v -> aruns (var_count fuel maxd lr) v r ->
+  exists a lr' v', r = ADone (a, lr') v' /\
+    match a with
+    | Res (Ok z) => (0 <= z <= maxd)%Z /\ z = Z.of_N (dec_val (digit_prefix (rest_at v 0)))
+    | _ => True
+    end.
+Proof. exact var_count_value. Qed.
+Print Assumptions C06_var_count_within_type_limit.
+
+Theorem C06_group_within_limit : forall fuel limit lr v r,
+  K fuel lr v -> aruns (clause_group fuel limit lr) v r ->
+  exists a lr' v', r = ADone (a, lr') v' /\
+    match a with
+    | Res (Ok z) => (0 <= z <= limit)%Z /\ z = Z.of_N (dec_val (digit_prefix (rest_at v 1)))
+    | _ => True
+    end.
+Proof. exact clause_group_value. Qed.
+Print Assumptions C06_group_within_limit.
+
+Theorem C06_clause_literals_within_limit : forall fuel limit lr v r,
+  K fuel lr v -> aruns (clause_lits fuel limit lr) v r ->
+  exists a lr' v', r = ADone (a, lr') v' /\
+    match a with
+    | Res (Ok ls) => Forall (fun z => (- limit <= z <= limit)%Z) ls
+    | _ => True
+    end.
+Proof. exact clause_lits_within_limit. Qed.
+Print Assumptions C06_clause_literals_within_limit.
+
+Theorem C06_log_literals_within_limit : forall fuel maxd acc lr v r,
+  K fuel lr v -> Forall (fun z => (- maxd <= z <= maxd)%Z) acc -> aruns (value_lits fuel fuel maxd acc lr) v r ->
+  exists a lr' v', r = ADone (a, lr') v' /\
+    match a with
+    | Ok (ls, _) => Forall (fun z => (- maxd <= z <= maxd)%Z) ls
+    | _ => True
+    end.
+Proof. exact value_lits_within_limit. Qed.
+Print Assumptions C06_log_literals_within_limit.
